@@ -197,4 +197,43 @@ ResultAllowed(files, q, sorting, limit, skip, restrict, res, more) ==
                 /\ \A s \in rest : ~(lt(first, s) /\ lt(s, last))                     \* nothing skipped inside the page
                 /\ Cardinality({s \in rest : lt(s, first)}) <= skip                    \* all that must precede fit before it
                 /\ Cardinality({s \in rest : le(s, first)}) >= skip                    \* enough that may precede it
+
+(* ---------- grouping (group:"@key@..."): one stream per group ----------
+   The matching streams are partitioned by the tuple of the grouping keys; every group is represented by a stream
+   that no other stream of the group precedes in the sort order; the representatives are sorted and paged like a
+   plain result.  The flag says whether more groups exist beyond the page. *)
+GroupKey(group, s) == [i \in DOMAIN group |-> KeyVal(group[i], s)]
+ResultAllowedGrouped(files, q, sorting, limit, skip, restrict, group, res, more) ==
+    LET all == VisibleStreams(files)
+        vis == {s \in all : restrict = {} \/ s.id \in restrict}
+        must == {s \in vis : Eval3(q, s, all)[1]}
+        may  == {s \in vis : Eval3(q, s, all)[2]}
+        byId(i) == CHOOSE s \in vis : s.id = i
+        n == Len(res)
+        le(a, b) == Cmp(sorting, a, b) <= 0
+        lt(a, b) == Cmp(sorting, a, b) < 0
+        key(s) == GroupKey(group, s)
+    IN
+    /\ \A i \in DOMAIN res : \E s \in vis : s.id = res[i]
+    /\ \A i, j \in DOMAIN res : i # j => key(byId(res[i])) # key(byId(res[j]))          \* one stream per group
+    /\ \A i \in DOMAIN res : byId(res[i]) \in may
+    /\ \A i \in 1 .. (n - 1) : le(byId(res[i]), byId(res[i + 1]))
+    /\ must = may =>
+        LET M == must
+            best(s) == \A t \in M : key(t) = key(s) => ~lt(t, s)
+            G == {key(s) : s \in M}
+            R == {byId(res[i]) : i \in DOMAIN res}
+            repOf(g) == CHOOSE s \in M : key(s) = g /\ best(s)
+            rest == {repOf(g) : g \in G \ {key(s) : s \in R}}
+            size == Cardinality(G)
+        IN /\ \A s \in R : best(s)                                                     \* the best of its group
+           /\ limit = 0 => n = size /\ ~more /\ skip = 0
+           /\ limit > 0 =>
+                /\ n = (IF size <= skip THEN 0 ELSE IF size - skip < limit THEN size - skip ELSE limit)
+                /\ more = (size > skip + limit)
+                /\ n > 0 =>
+                     LET first == byId(res[1]) last == byId(res[n]) IN
+                     /\ \A s \in rest : ~(lt(first, s) /\ lt(s, last))
+                     /\ Cardinality({s \in rest : lt(s, first)}) <= skip
+                     /\ Cardinality({s \in rest : le(s, first)}) >= skip
 =============================================================================
